@@ -51,7 +51,7 @@ def run_groups(groups, pid, repo, work, tier, only=None):
 def _run_group(g, pid, scratch, tier, only):
     cfg = registry.KANI_GROUPS[g]
     metas = parse_meta(os.path.join(ROOT, cfg["include"]))
-    names = [n for n, m in metas.items() if pid in m["props"] or pid is None]
+    names = [n for n, m in metas.items() if pid is None or pid in m["props"] or any(pid in registry.IMPLIES.get(t, ()) for t in m["props"])]
     if only:
         names = [n for n in names if n == only]
     if tier != "thorough":
